@@ -93,7 +93,9 @@ m = {
    {"name": "E3-concolic-numpy", "path": "vf/checks/c16.py", "serves_properties": ["C16"], "kind_free_text": "the real numpy code executed on dtype=object arrays of hash-consed DAG nodes with concolic comparisons (DART path coverage by z3), one z3 query per path"},
  ],
  "checks": checks,
- "notes": "Solver-based checking of the real code (DESIGN.md). fix: commits in /repo are listed in known_findings.json under 'fixed'.",
+ "notes": "Solver-based checking of the real code (DESIGN.md). fix: commits in /repo are listed in known_findings.json under 'fixed'. "
+          "Wall time on 16 cores: quick 4 s .. 4.5 min per property (about 25 min for all 17); thorough up to 30 min per property (C01, C05), about 2.5 h for all 17 (DESIGN 11.4). "
+          "Seeded changes and which check catches which: seeded/ and DESIGN section 13; tools/run_all_mutants.sh re-confirms them against /repo.",
  "not_applicable": na,
 }
 json.dump(m, open(os.path.join(ROOT, "MANIFEST.json"), "w"), indent=1)
